@@ -4,6 +4,7 @@ import itertools
 import random
 
 from vmon import gens as G
+from vmon.gens import THOROUGH_SCALE as TS
 from vmon import oracles as O
 
 PID = "C12"
@@ -225,7 +226,7 @@ def generate(tier, seed):
     yield "ham1", {"xs": G.universe("AC", 4), "alphabet": "ACD", "positions": [3, 1]}, True
     yield "ham1", {"xs": G.universe("AC", 3), "alphabet": "ACD", "positions": []}, True
     # alphabets of 5, 10, 20 letters; default alphabet
-    for i in range(60 if thorough else 8):
+    for i in range(60 * TS if thorough else 8):
         for alpha in ("ACDEF", "ACDEFGHIKL", G.AA):
             xs = [G.rand_string(rng, alpha[:3] if j % 2 else alpha, 0, 9) for j in range(20)]
             yield "lev1", {"xs": xs, "alphabet": alpha}, i < 3
@@ -242,11 +243,11 @@ def generate(tier, seed):
                 yield "nnn", {"x": x, "alphabet": "AC", "maxd": maxd, "mode": "ham"}, True      # 2 letters: parity of steps matters
             yield "nnn", {"x": "A" * len(x), "alphabet": "A", "maxd": maxd, "mode": "lev"}, True    # unary alphabet
             yield "nnn", {"x": x, "alphabet": "ACDW", "maxd": min(maxd, 2), "mode": "lev"}, True
-    for i in range(80 if thorough else 8):
+    for i in range(80 * TS if thorough else 8):
         yield "nnn", {"x": G.rand_string(rng, "ACD", 0, 4), "alphabet": "ACD", "maxd": rng.choice([1, 2, 2, 3]), "mode": "lev"}, i < 3
     # utilities
     pools = [("AC", G.universe("AC", 4)), ("ACD", G.universe("ACD", 3)), ("ACDW", G.universe("ACDW", 3))]
-    n_u = 1500 if thorough else 90
+    n_u = 1500 * TS if thorough else 90
     for i in range(n_u):
         alpha, pool = pools[i % 3]
         seqs = G.small_multiset(rng, pool, 1, 20)
@@ -254,12 +255,12 @@ def generate(tier, seed):
         yield "pairs", {"seqs": seqs, "alphabet": alpha, "mode": mode}, i < 30
         ref = G.small_multiset(rng, pool, 1, 15) if i % 3 else None
         yield "numbers", {"seqs": seqs, "reference": ref, "alphabet": alpha, "mode": mode}, i < 30
-    for i in range(100 if thorough else 8):
+    for i in range(100 * TS if thorough else 8):
         rep = G.repertoire(rng, rng.randint(5, 30), lo=2, hi=6)
         yield "pairs", {"seqs": rep, "alphabet": G.AA, "mode": "ham", "default_nb": True}, i < 3
         yield "numbers", {"seqs": rep, "reference": None, "alphabet": G.AA, "mode": "lev", "default_nb": True}, i < 3
     # nndist_hamming: reference sets built at controlled distances
-    n_d = 3000 if thorough else 160
+    n_d = 3000 * TS if thorough else 160
     for i in range(n_d):
         L = rng.randint(1, 6)
         seq = G.rand_string(rng, "ACDEW", L, L)
